@@ -400,3 +400,33 @@ def unfold_defs(ct, cls: str, R: Any) -> Any:
     return z3.And(wf(R) == z3.And(*wf_def(ct, cls, R)),
                   reach(R) == z3.And(*reach_def(ct, cls, R)),
                   z3.ForAll([w], conforms(R, w) == conforms_def(ct, cls, R, w), patterns=[conforms(R, w)]))
+
+
+# ----------------------------------------------------------------------------- observational equality of results (C17)
+def _content_eq(ct, a: Any, b: Any, depth: int) -> Any:
+    """same value, or two containers of the same class with equal content in the same order (to `depth` levels)"""
+    if depth == 0:
+        return a == b
+    j = z3.Int(f"oj{depth}")
+    k = z3.Const(f"ok{depth}", Obj)
+    seq = z3.And(M.llen(a) == M.llen(b),
+                 z3.ForAll([j], z3.Implies(z3.And(0 <= j, j < M.llen(a)), _content_eq(ct, M.lat(a, j), M.lat(b, j), depth - 1)),
+                           patterns=[M.lat(a, j)]))
+    dic = z3.And(M.klen(a) == M.klen(b),
+                 z3.ForAll([j], z3.Implies(z3.And(0 <= j, j < M.klen(a)), M.kat(a, j) == M.kat(b, j)), patterns=[M.kat(a, j)]),
+                 z3.ForAll([k], z3.And(M.has(a, k) == M.has(b, k),
+                                       z3.Implies(M.has(a, k), _content_eq(ct, M.dget(a, k), M.dget(b, k), depth - 1))),
+                           patterns=[M.has(a, k)]))
+    is_seq = z3.Or(M.rcls(a) == ct.id("list"), M.rcls(a) == ct.id("tuple"))
+    return z3.Or(a == b, z3.And(M.is_Ref(a), M.is_Ref(b), M.rcls(a) == M.rcls(b),
+                                z3.Or(z3.And(is_seq, seq), z3.And(M.rcls(a) == ct.id("dict"), dic))))
+
+
+def obs_eq(ct, r: Any, r2: Any) -> Any:
+    names = sorted({n for ns in PROP_NAMES.values() for n in ns})
+    return z3.And(M.is_Ref(r), M.is_Ref(r2), M.rcls(r) == M.rcls(r2), is_schema(ct, r),
+                  *[_content_eq(ct, prop(r, n), prop(r2, n), 2) for n in names])
+
+
+from pyvc.contracts import REG as _REG2  # noqa: E402
+_REG2.obs_eq = obs_eq
